@@ -167,7 +167,7 @@ def reply {α : Type} (via : String) (w : Option (DM Rat)) (rd : DM Rat → Opti
     match viaOf via t with
     | none => err "format"
     | some t' =>
-      "{\"tree\":" ++ jDM t ++ ",\"read\":" ++ (match rd t' with | none => "null" | some x => pr x) ++ "}"
+      "{\"tree\":" ++ jDM t ++ ",\"via\":" ++ jDM t' ++ ",\"read\":" ++ (match rd t' with | none => "null" | some x => pr x) ++ "}"
 
 def eps : Rat := mkRat 1 1000000000
 def rtolSym : Rat := mkRat 1 100000
